@@ -79,7 +79,7 @@ def scanPoint (dy dpmm x y : α) : Option (Int × Int) := do
   let a ← fixedPoint (pixelX dpmm x)
   let b ← fixedPoint (pixelY dy dpmm y)
   pure (a, b)
-/-- rasterizer.go RenderPath (since 190569f): the abscissa handed to `gradient.At` for pixel column c:
+/-- rasterizer.go RenderPath (since cd59fcc): the abscissa handed to `gradient.At` for pixel column c:
 `(float64(x)+0.5)/dpmm` -/
 def gradArgX (dpmm : α) (c : Int) : α := (Scalar.ofInt c + Scalar.half) / dpmm
 /-- … and the ordinate for pixel row r: `(float64(size.Y)-float64(y)-0.5)/dpmm` -/
@@ -158,6 +158,23 @@ def setColorSpace {α} (linear : Bool) (f : α → α) (m : Mem α) (stops : Sli
   else
     let c := copySlice m stops
     (mapInPlace f c.1 c.2, c.2)
+
+/-- a gradient object: geometry (start/end or centres/radii) and a stops slice -/
+structure Grad (γ : Type) where
+  geom : γ
+  stops : Slice
+
+/-- the VALUE of a gradient in a memory: what `At` and every renderer can observe of it -/
+def Grad.value {γ α} (m : Mem α) (g : Grad γ) : γ × List α := (g.geom, view m g.stops)
+
+/-- `g.SetColorSpace(cs)` on the gradient object: the struct copy keeps the geometry -/
+def gradSetColorSpace {γ α} (linear : Bool) (f : α → α) (m : Mem α) (g : Grad γ) : Mem α × Grad γ :=
+  let r := setColorSpace linear f m g.stops
+  (r.1, { g with stops := r.2 })
+
+/-- SetColorSpace as a PURE function of (gradient value, colour space): no call history enters -/
+def scsValue {γ α} (linear : Bool) (f : α → α) (v : γ × List α) : γ × List α :=
+  (v.1, if linear then v.2 else v.2.map f)
 
 /-! ### (d) replay of opaque draws -/
 
@@ -352,7 +369,7 @@ def handlePix : List String → Option String
     | some b, _ =>
       let anyEO := pdraws.any (·.rule == Rule.evenOdd)
       let v2 := if anyEO then judge (pdraws.map (conv · fun _ => Rule.nonZero)) e0 rows else v
-      -- regression class (the rasterizer honours EvenOdd since cc87e30): the image agrees with the all-NonZero reading
+      -- regression class (the rasterizer honours EvenOdd since 5293026): the image agrees with the all-NonZero reading
       if anyEO && v2.bad.isNone then
         pure s!"FAIL fillrule-ignored:EvenOdd {show4 b} (all pixels off the top row and left column agree with NonZero){border v2}"
       else
@@ -372,6 +389,7 @@ def parseNatList (ts : List String) : Option (List Nat) := ts.mapM (·.toNat?)
   FIX toI x | FIX fromI i | FIX fixed x | FIX toP x y | FIX fromP i j
   SIZE w h dpmm                     → wpx hpx
   SCAN hpx dpmm x y                 → fixed X, fixed Y
+  SCSH <linear 0/1> <k> geom×k <n> (offset colour)×n MAP f(colour)×n → geometry | stops of the RESULT of one call in a history
   GRAD hpx dpmm c r                 → the (x, y) handed to gradient.At for pixel column c, row r
   SCS <linear 0/1> <n> <off> <len> <cap> stops… MAP f(stops)…  → caller's stops afterwards | returned stops
   PIX …
@@ -430,6 +448,31 @@ def handle : List String → Option String
     let (m', s') := setColorSpace (lin == "1") f m s
     let fmt (l : List Nat) := " ".intercalate (l.map toString)
     pure (s!"{fmt (m'.getD 0 [])} | {fmt (view m' s')}").trim
+  | "SCSH" :: lin :: k :: ts => do
+    -- one SetColorSpace call out of a call history: the receiver's current value (geometry tokens and
+    -- stops as offset/colour pairs) and the colour conversion pointwise; answered by the memory model
+    let k ← k.toNat?
+    let geom := ts.take k
+    let ts := ts.drop k
+    let (n, ts) ← (match ts with | n :: r => n.toNat?.map (·, r) | _ => none)
+    let rec pairs : Nat → List String → Option (List (String × Nat) × List String)
+      | 0, r => some ([], r)
+      | i + 1, o :: c :: r => do
+        let c ← c.toNat?
+        let (l, r') ← pairs i r
+        pure ((o, c) :: l, r')
+      | _, _ => none
+    let (stops, rest) ← pairs n ts
+    let mp ← (match rest with | "MAP" :: r => parseNatList r | _ => none)
+    let f : String × Nat → String × Nat := fun v =>
+      match (stops.zip mp).find? (·.1.2 == v.2) with | some (_, w) => (v.1, w) | none => v
+    -- the receiver's stops sit inside a larger array, as they may in Go
+    let m : Mem (String × Nat) := [("pad", 0) :: stops ++ [("pad", 1)]]
+    let g : Grad (List String) := ⟨geom, ⟨0, 1, n, n + 1⟩⟩
+    let (m', g') := gradSetColorSpace (lin == "1") f m g
+    let v := g'.value m'
+    let fmt (l : List (String × Nat)) := " ".intercalate (l.map fun p => s!"{p.1} {p.2}")
+    pure (s!"{" ".intercalate v.1} | {fmt v.2}").trim
   | "PIX" :: ts => handlePix ts
   | "REGION" :: ts => Canvas.Region.handle ts
   | _ => none
